@@ -173,6 +173,15 @@ type evNode struct {
 	parkCh   chan struct{}
 	unpark   bool // a held poll has been released and not yet served
 	ended    bool
+	// restarts of Run on the same Watcher (RunRestart): connections of a Run that has returned are dead, whatever
+	// still arrives on them is answered with an error and not recorded
+	seenPeer    map[string]bool
+	deadPeer    map[string]bool
+	restartWant bool // the harness has scripted a fatal RPC error: Run is expected to return and be restarted
+	restarted   int
+	pollFails   int  // further poll failures to arm (three in a row make the poller give up)
+	pollDue     bool // mirror of EvmWatcher!pon: a log has been stored and no scan has left pending empty since
+	comp        string
 	// log hand-over with the block-by-hash reply held back (PushLog step with "hold"): the reply is gated until
 	// the watcher has polled and scanned the heads scripted for the gap (or the poller is seen idle)
 	holdWant    bool
@@ -571,6 +580,18 @@ func (n *evNode) rGap() {
 	n.rMid = nil
 }
 
+// alive tells whether the call comes from the connection of the Run that is in progress (under n.mu).
+func (n *evNode) alive(ctx context.Context) bool {
+	a := ethrpc.PeerInfoFromContext(ctx).RemoteAddr
+	if n.deadPeer[a] {
+		return false
+	}
+	n.seenPeer[a] = true
+	return true
+}
+
+var errEvDead = fmt.Errorf("verif: connection of a Run that has returned")
+
 // ---------------------------------------------------------------- the `eth` JSON-RPC service
 
 type evEth struct{ n *evNode }
@@ -578,6 +599,10 @@ type evEth struct{ n *evNode }
 func (e *evEth) GetBlockByNumber(ctx context.Context, tag string, full bool) (map[string]interface{}, error) {
 	n := e.n
 	n.mu.Lock()
+	if !n.alive(ctx) {
+		n.mu.Unlock()
+		return nil, errEvDead
+	}
 	if n.phase != 2 && n.initDone && n.parkWant {
 		// the block poller's request is held back while a re-observation is in flight
 		n.parkWant = false
@@ -591,6 +616,10 @@ func (e *evEth) GetBlockByNumber(ctx context.Context, tag string, full bool) (ma
 		n.unpark = false
 		if time.Since(t0) > evSlow {
 			n.slow = true
+		}
+		if !n.alive(ctx) {
+			n.mu.Unlock()
+			return nil, errEvDead
 		}
 	}
 	defer n.mu.Unlock()
@@ -629,6 +658,10 @@ func (e *evEth) GetBlockByNumber(ctx context.Context, tag string, full bool) (ma
 		n.pollTag = tag
 		if err := n.fails("poll"); err != nil {
 			n.emit("B_Poll", map[string]interface{}{"tag": tag, "ok": false, "n": 0, "err": err.Error()}, nil)
+			if n.pollFails > 0 {
+				n.pollFails--
+				n.applyEnv(evStep{Ev: "Arm", A: map[string]interface{}{"kind": "poll", "text": "timeout"}})
+			}
 			return nil, err
 		}
 		n.emit("B_Poll", map[string]interface{}{"tag": tag, "ok": true, "n": int(num)}, nil)
@@ -643,6 +676,10 @@ func (e *evEth) GetBlockByNumber(ctx context.Context, tag string, full bool) (ma
 func (e *evEth) GetBlockByHash(ctx context.Context, h ethcommon.Hash, full bool) (*ethtypes.Header, error) {
 	n := e.n
 	n.mu.Lock()
+	if !n.alive(ctx) {
+		n.mu.Unlock()
+		return nil, errEvDead
+	}
 	if n.phase != 2 && n.holdWant {
 		// the log has been received; its block lookup is answered only when the harness opens the gate
 		n.holdWant, n.holdArrived = false, true
@@ -660,7 +697,7 @@ func (e *evEth) GetBlockByHash(ctx context.Context, h ethcommon.Hash, full bool)
 	n.drain()
 	n.calls++
 	b, ok := n.blkName[h]
-	ev, kind := "L_BlockTime", ""
+	ev, kind := "L_BlockTime", "ltime"
 	if n.phase == 2 {
 		ev, kind = "R_BlockTime", "rtime"
 		if ok && b == [2]int{1, 0} {
@@ -687,6 +724,9 @@ func (e *evEth) GetTransactionReceipt(ctx context.Context, h ethcommon.Hash) (*e
 	n := e.n
 	n.mu.Lock()
 	defer n.mu.Unlock()
+	if !n.alive(ctx) {
+		return nil, errEvDead
+	}
 	n.drain()
 	n.calls++
 	tx, ok := n.txName[h]
@@ -805,6 +845,10 @@ func (e *evEth) Logs(ctx context.Context, crit map[string]interface{}) (*ethrpc.
 	sub := notifier.CreateSubscription()
 	n.mu.Lock()
 	defer n.mu.Unlock()
+	if !n.alive(ctx) {
+		return nil, errEvDead
+	}
+	n.critAddr, n.critTopics = nil, nil
 	n.notifier, n.subID = notifier, sub.ID
 	switch x := crit["address"].(type) {
 	case string:
@@ -864,6 +908,9 @@ func (c *evCore) Write(e zapcore.Entry, fs []zapcore.Field) error {
 	n.mu.Lock()
 	n.drain()
 	n.done++
+	if len(keys) == 0 {
+		n.pollDue = false
+	}
 	n.emit("H_Done", map[string]interface{}{"n": num}, map[string]interface{}{"pending": keys})
 	n.mu.Unlock()
 	return nil
@@ -971,8 +1018,10 @@ func (r *evRun) settle() bool {
 		if n.isParked {
 			return n.started >= n.emitted && n.done == n.started
 		}
-		if (len(keys) > 0 || en) && n.pl < cur {
-			stalled = len(keys) > 0
+		_ = keys
+		if (n.pollDue || en) && n.pl < cur {
+			// a head read is owed (EvmWatcher!PollDue) when a log has been stored and pending has not been empty since
+			stalled = n.pollDue
 			return false
 		}
 		stalled = false
@@ -1113,8 +1162,87 @@ func (r *evRun) pushLog(st evStep) bool {
 		return false
 	}
 	keys := n.pendingKeys()
+	n.mu.Lock()
+	n.pollDue = true
+	n.mu.Unlock()
 	r.line("L_Insert", nil, map[string]interface{}{"pending": keys})
 	r.unpark()
+	return true
+}
+
+func (r *evRun) ready() bool {
+	r.n.mu.Lock()
+	comp := r.n.comp
+	r.n.mu.Unlock()
+	rr := httptest.NewRecorder()
+	readiness.Handler(rr, httptest.NewRequest("GET", "/readyz", nil))
+	return strings.Contains(rr.Body.String(), comp+"\ttrue")
+}
+
+// restart makes Run return through a fatal RPC error while the watcher is quiet (three failed polls in a row when
+// the poller is running, else the failing block lookup of a throw-away log), lets the REAL supervisor run it again
+// on the same Watcher, and records what the Watcher still holds (RunRestart).
+func (r *evRun) restart(st evStep, k int) bool {
+	n := r.n
+	if !r.settle() {
+		return false
+	}
+	via := vhStr(st.A, "via")
+	n.mu.Lock()
+	n.drain()
+	if via != "poll" && via != "ltime" {
+		via = []string{"poll", "ltime"}[k%2]
+	}
+	if via == "poll" && !(n.pollDue && r.w.ethConn.enabled.Load()) {
+		via = "ltime"
+	}
+	before := n.restarted
+	n.restartWant = true
+	var notifier *ethrpc.Notifier
+	var id ethrpc.ID
+	var lg *ethtypes.Log
+	if via == "poll" {
+		n.pollFails = 2
+		n.applyEnv(evStep{Ev: "Arm", A: map[string]interface{}{"kind": "poll", "text": "timeout"}})
+	} else {
+		tx := fmt.Sprintf("tR%d", k)
+		n.applyEnv(evStep{Ev: "Mine", A: map[string]interface{}{"tx": tx, "n": int(n.latest), "status": 1,
+			"logs": []interface{}{map[string]interface{}{"core": true, "topic": true, "sender": "sR", "seq": 1000 + k, "cl": 0}}}})
+		n.applyEnv(evStep{Ev: "Arm", A: map[string]interface{}{"kind": "ltime", "text": st.A["text"]}})
+		lg = n.concreteLog(tx, 0, n.rcpt[tx])
+		n.emit("PushLog", map[string]interface{}{"tx": tx, "i": 1, "delivered": n.matches(lg), "hold": false}, nil)
+		notifier, id = n.notifier, n.subID
+	}
+	n.mu.Unlock()
+	if lg != nil {
+		if err := notifier.Notify(id, lg); err != nil {
+			r.line("Timeout", map[string]interface{}{"what": "notify: " + err.Error()}, nil)
+			return false
+		}
+	}
+	// Run returns, the supervisor backs off (250..750 ms the first time) and runs it again
+	t0 := time.Now()
+	for {
+		n.mu.Lock()
+		done := n.restarted > before && n.initDone && n.subscribed
+		n.mu.Unlock()
+		if done && r.ready() {
+			break
+		}
+		if r.hasExited() || time.Since(t0) > evDeadline {
+			r.line("Timeout", map[string]interface{}{"what": "restart"}, nil)
+			return false
+		}
+		time.Sleep(500 * time.Microsecond)
+	}
+	keys := n.pendingKeys()
+	n.mu.Lock()
+	n.drain()
+	n.pollDue, n.pollFails = false, 0
+	n.pl, n.pollTag = n.initHead, n.initTag
+	n.emitted, n.started, n.done = 0, 0, 0
+	n.emit("RunRestart", map[string]interface{}{"tag": n.initTag, "pl": int(n.initHead), "via": via}, map[string]interface{}{"pending": keys})
+	n.mu.Unlock()
 	return true
 }
 
@@ -1217,45 +1345,75 @@ func evRunScenario(t *testing.T, tr *vhTrace, sc evScenario) {
 		w.maxWaitConfirmations = uint64(sc.Cfg.W)
 	}
 	n.w = w
+	n.comp = string(comp)
+	n.seenPeer, n.deadPeer = map[string]bool{}, map[string]bool{}
 	r := &evRun{n: n, w: w, reqC: reqC, fin: sc.Cfg.Fin}
 
 	logger := zap.New(&evCore{n})
 	ctx, cancel := context.WithCancel(context.Background())
 	defer cancel()
-	supervisor.New(ctx, logger, func(ctx context.Context) error {
-		func() {
-			defer func() {
-				if p := recover(); p != nil {
-					r.exitMu.Lock()
-					r.exited, r.exitEv = true, "Crash"
-					r.exitA = map[string]interface{}{"panic": fmt.Sprint(p), "stack": string(debug.Stack())}
-					r.exitMu.Unlock()
-				}
-			}()
-			err := w.Run(ctx)
-			if ctx.Err() == nil {
-				// the scripted node is healthy (no failure is ever injected into a call whose failure ends Run)
+	// The watcher runs as a supervised runnable, as in guardiand: when Run returns an error the REAL supervisor
+	// cancels its context, backs off and runs it again on the same Watcher value.
+	runs := 0
+	watch := func(ctx context.Context) (err error) {
+		defer func() {
+			if p := recover(); p != nil {
 				r.exitMu.Lock()
-				r.exited, r.exitEv = true, "RunExit"
-				r.exitA = map[string]interface{}{"err": fmt.Sprint(err)}
+				r.exited, r.exitEv = true, "Crash"
+				r.exitA = map[string]interface{}{"panic": fmt.Sprint(p), "stack": string(debug.Stack())}
 				r.exitMu.Unlock()
+				<-ctx.Done()
+				err = ctx.Err()
 			}
 		}()
+		err = w.Run(ctx)
+		if ctx.Err() != nil {
+			return err
+		}
+		n.mu.Lock()
+		if n.restartWant {
+			// the scripted fatal error: everything that still arrives on this Run's connections is dead
+			n.restartWant = false
+			n.restarted++
+			for a := range n.seenPeer {
+				n.deadPeer[a] = true
+			}
+			n.initDone, n.subscribed = false, false
+			n.parkWant = false
+			if n.isParked {
+				n.isParked = false
+				close(n.parkCh)
+			}
+			runs++
+			n.comp = fmt.Sprintf("verifEvm%dr%d", sc.ID, runs)
+			w.readiness = readiness.Component(n.comp)
+			n.mu.Unlock()
+			return err
+		}
+		n.mu.Unlock()
+		// the scripted node is healthy (no failure was injected into a call whose failure ends Run)
+		r.exitMu.Lock()
+		r.exited, r.exitEv = true, "RunExit"
+		r.exitA = map[string]interface{}{"err": fmt.Sprint(err)}
+		r.exitMu.Unlock()
+		<-ctx.Done()
+		return ctx.Err()
+	}
+	supervisor.New(ctx, logger, func(ctx context.Context) error {
+		if err := supervisor.Run(ctx, "evmwatch", watch); err != nil {
+			return err
+		}
+		supervisor.Signal(ctx, supervisor.SignalHealthy)
 		<-ctx.Done()
 		return ctx.Err()
 	})
 
 	// wait for the end of Run's initialisation: subscriptions in place, poller's first head read served
-	rec := func() bool {
-		rr := httptest.NewRecorder()
-		readiness.Handler(rr, httptest.NewRequest("GET", "/readyz", nil))
-		return strings.Contains(rr.Body.String(), string(comp)+"\ttrue")
-	}
 	okInit := r.waitFor(func() bool {
 		n.mu.Lock()
 		ini, sub := n.initDone, n.subscribed
 		n.mu.Unlock()
-		return ini && sub && rec() && w.ethConn != nil
+		return ini && sub && r.ready() && w.ethConn != nil
 	})
 	n.mu.Lock()
 	if !n.initDone {
@@ -1276,6 +1434,7 @@ func evRunScenario(t *testing.T, tr *vhTrace, sc evScenario) {
 	n.mu.Unlock()
 
 	alive := true
+	nRestart := 0
 	for _, st := range sc.Steps {
 		if r.hasExited() {
 			r.line("Timeout", map[string]interface{}{"what": "run"}, nil) // recorded as RunExit / Crash
@@ -1289,6 +1448,9 @@ func evRunScenario(t *testing.T, tr *vhTrace, sc evScenario) {
 			alive = r.settle() && r.pushLog(st)
 		case "Reobserve":
 			alive = r.reobserve(st)
+		case "Restart":
+			nRestart++
+			alive = r.restart(st, nRestart)
 		case "NewHead":
 			n.mu.Lock()
 			n.drain()
